@@ -93,6 +93,110 @@ Proof.
   eapply sublist_in; [apply emb_top; exact H4|exact Hc].
 Qed.
 
+Lemma desc_closed0 l p t : In p (pre_f l) -> In t (pre_f (rch p)) -> In t (pre_f l).
+Proof.
+  intros Hp Ht. destruct (pre_f_segment l p Hp) as [a [b E]]. rewrite E.
+  apply in_or_app. right. apply in_or_app. left. rewrite pre_unfold. right. exact Ht.
+Qed.
+
+(* ------------------------------------------------------------------ *)
+(* branch starts: [upd_at n g] replaces the child list of node n         *)
+Lemma upd_at_ext n g g' : forall t, (forall p, In p (pre t) -> rid p = n -> g (rch p) = g' (rch p)) ->
+  upd_at n g t = upd_at n g' t.
+Proof.
+  induction t as [id i ch IH] using rt_ind'. intros H. cbn [upd_at].
+  destruct (Nat.eqb id n) eqn:E.
+  - apply Nat.eqb_eq in E. pose proof (H (T id i ch) (pre_in_self _) E) as Hg. cbn [rch] in Hg. rewrite Hg. reflexivity.
+  - f_equal. apply map_ext_in. intros c Hc. rewrite Forall_forall in IH. apply (IH c Hc).
+    intros p Hp. apply H. rewrite pre_unfold. right. cbn [rch]. apply in_flat_map. exists c. split; assumption.
+Qed.
+
+Lemma ids_t_incl_ids c l : In c l -> incl (ids_t c) (ids l).
+Proof.
+  intros Hc m Hm. unfold ids. unfold ids_t in Hm. apply in_map_iff in Hm. destruct Hm as [t [E Ht]].
+  apply in_map_iff. exists t. split; [exact E|]. apply in_flat_map. exists c. split; assumption.
+Qed.
+
+Lemma upd_at_absent n g : forall t, ~ In n (ids_t t) -> upd_at n g t = t.
+Proof.
+  induction t as [id i ch IH] using rt_ind'. intros H. cbn [upd_at]. rewrite ids_t_unfold in H. cbn [rid rch] in H.
+  destruct (Nat.eqb id n) eqn:E; [apply Nat.eqb_eq in E; exfalso; apply H; left; exact E|].
+  f_equal. rewrite <- (map_id ch) at 2. apply map_ext_in. intros c Hc. rewrite Forall_forall in IH.
+  apply (IH c Hc). intros Hin. apply H. right. exact (ids_t_incl_ids c ch Hc n Hin).
+Qed.
+
+Lemma upd_at_absent_f n g l : ~ In n (ids l) -> map (upd_at n g) l = l.
+Proof.
+  intros H. rewrite <- (map_id l) at 2. apply map_ext_in. intros c Hc. apply upd_at_absent.
+  intros Hin. apply H. exact (ids_t_incl_ids c l Hc n Hin).
+Qed.
+
+Lemma ids_rch_incl t x : In t (pre x) -> incl (ids (rch t)) (ids_t x).
+Proof.
+  intros Ht m Hm. unfold ids in Hm. apply in_map_iff in Hm. destruct Hm as [c [E Hc]]. subst m.
+  unfold ids_t. apply in_map. rewrite <- (app_nil_r (pre x)). change (pre x ++ []) with (pre_f [x]).
+  apply (desc_closed0 [x] t c); [cbn [flat_map]; rewrite app_nil_r; exact Ht|exact Hc].
+Qed.
+
+Definition upd_ids_ok n g (t0 : rt) : Prop := NoDup (ids_t t0) -> forall t, In t (pre t0) -> rid t = n ->
+  forall m, In m (ids_t (upd_at n g t0)) <-> (In m (ids_t t0) /\ ~ In m (ids (rch t))) \/ In m (ids (g (rch t))).
+
+Lemma ids_map_cons (h : rt -> rt) x xs : ids (map h (x :: xs)) = ids_t (h x) ++ ids (map h xs).
+Proof. cbn [map]. rewrite ids_cons, ids_t_unfold. reflexivity. Qed.
+
+Lemma upd_ids_f n g l : Forall (upd_ids_ok n g) l -> NoDup (ids l) -> forall t, In t (pre_f l) -> rid t = n ->
+  forall m, In m (ids (map (upd_at n g) l)) <-> (In m (ids l) /\ ~ In m (ids (rch t))) \/ In m (ids (g (rch t))).
+Proof.
+  induction 1 as [|x xs Hx _ IH]; intros ND t Ht Hn m; [destruct Ht|].
+  assert (E0 : ids (x :: xs) = ids_t x ++ ids xs) by (rewrite ids_cons, ids_t_unfold; reflexivity).
+  assert (NDx : NoDup (ids_t x)) by (rewrite E0 in ND; exact (NoDup_app_l _ _ ND)).
+  assert (NDxs : NoDup (ids xs)) by (rewrite E0 in ND; exact (NoDup_app_r _ _ ND)).
+  assert (Dj : forall k, In k (ids_t x) -> In k (ids xs) -> False) by (intros k; rewrite E0 in ND; exact (NoDup_app_disj _ _ k ND)).
+  rewrite ids_map_cons, E0, !in_app_iff. cbn [flat_map] in Ht. apply in_app_or in Ht. destruct Ht as [Ht|Ht].
+  - assert (Hnx : ~ In n (ids xs)).
+    { intros Hin. apply (Dj n); [|exact Hin]. rewrite <- Hn. unfold ids_t. apply in_map. exact Ht. }
+    rewrite (upd_at_absent_f n g xs Hnx). rewrite (Hx NDx t Ht Hn m).
+    pose proof (ids_rch_incl t x Ht) as Hsub. split.
+    + intros [[[H1 H2]|H]|H]; [left; split; [left; exact H1|exact H2]|right; exact H|].
+      left. split; [right; exact H|]. intros Hin. exact (Dj m (Hsub m Hin) H).
+    + intros [[[H1|H1] H2]|H]; [left; left; split; assumption|right; exact H1|left; right; exact H].
+  - assert (Hnx : ~ In n (ids_t x)).
+    { intros Hin. apply (Dj n Hin). rewrite <- Hn. unfold ids. apply in_map. exact Ht. }
+    rewrite (upd_at_absent n g x Hnx). rewrite (IH NDxs t Ht Hn m).
+    assert (Hsub : incl (ids (rch t)) (ids xs)).
+    { intros k Hk. unfold ids in Hk. apply in_map_iff in Hk. destruct Hk as [c [E Hc]]. subst k.
+      unfold ids. apply in_map. exact (desc_closed0 xs t c Ht Hc). }
+    split.
+    + intros [H|[[H1 H2]|H]]; [|left; split; [right; exact H1|exact H2]|right; exact H].
+      left. split; [left; exact H|]. intros Hin. exact (Dj m H (Hsub m Hin)).
+    + intros [[[H1|H1] H2]|H]; [left; exact H1|right; left; split; assumption|right; right; exact H].
+Qed.
+
+Lemma upd_ids_t n g : forall t0, upd_ids_ok n g t0.
+Proof.
+  induction t0 as [id i ch IH] using rt_ind'. intros ND t Ht Hn m.
+  rewrite ids_t_unfold in ND. cbn [rid rch] in ND. inversion ND as [|? ? Hnot NDc]; subst.
+  cbn [upd_at]. rewrite pre_unfold in Ht. cbn [rch] in Ht.
+  destruct (Nat.eqb id (rid t)) eqn:E.
+  - apply Nat.eqb_eq in E. destruct Ht as [<-|Ht].
+    + rewrite !ids_t_unfold. cbn [rid rch In]. split.
+      * intros [H|H]; [left; split; [left; exact H|]|right; exact H]. rewrite <- H. exact Hnot.
+      * intros [[[H|H] H2]|H]; [left; exact H|contradiction|right; exact H].
+    + exfalso. apply Hnot. rewrite E. unfold ids. apply in_map. exact Ht.
+  - destruct Ht as [<-|Ht]; [cbn [rid] in E; rewrite Nat.eqb_refl in E; discriminate E|].
+    rewrite !ids_t_unfold. cbn [rid rch In]. rewrite (upd_ids_f (rid t) g ch IH NDc t Ht eq_refl m). split.
+    + intros [H|[[H1 H2]|H]]; [left; split; [left; exact H|]|left; split; [right; exact H1|exact H2]|right; exact H].
+      intros Hin. apply Hnot. rewrite H. unfold ids in *. apply in_map_iff in Hin. destruct Hin as [c [Ec Hc]].
+      rewrite <- Ec. apply in_map. exact (desc_closed0 ch t c Ht Hc).
+    + intros [[[H|H] H2]|H]; [left; exact H|right; left; split; assumption|right; right; exact H].
+Qed.
+
+Theorem upd_at_ids n g f t : NoDup (ids f) -> In t (pre_f f) -> rid t = n ->
+  forall m, In m (ids (map (upd_at n g) f)) <-> (In m (ids f) /\ ~ In m (ids (rch t))) \/ In m (ids (g (rch t))).
+Proof.
+  intros ND Ht Hn. apply upd_ids_f; try assumption. apply Forall_forall. intros t0 _. apply upd_ids_t.
+Qed.
+
 Section P.
 Variable v : nat -> verdict.
 
@@ -821,7 +925,299 @@ Proof.
   - intros n Hn. apply H. eapply sublist_in; [apply F_order|exact Hn].
 Qed.
 
+(* ------------------------------------------------------------------ *)
+(* statements assembled for Properties/C08.v                           *)
+Theorem F_subforest f : emb (F v f) f /\ sublist (ids (F v f)) (ids f).
+Proof. exact (conj (F_emb f) (F_order f)). Qed.
+
+Theorem F_nodes_parents f :
+  (forall t', In t' (pre_f (F v f)) ->
+     exists t, In t (pre_f f) /\ rid t = rid t' /\ rinfo t = rinfo t' /\ emb (rch t') (rch t)) /\
+  (forall p c, child_in (F v f) p c -> child_in f p c).
+Proof.
+  split.
+  - exact (emb_node _ _ (F_emb f)).
+  - intros p c. exact (emb_child _ _ p c (F_emb f)).
+Qed.
+
+(* ------------------------------------------------------------------ *)
+(* a stop answer ends the scan: what was accepted so far is kept, the   *)
+(* stopping node and everything later in pre-order is dropped           *)
+Lemma upto_stop_app a b :
+  upto_stop v (a ++ b) = if has_stop a then upto_stop v a else a ++ upto_stop v b.
+Proof.
+  induction a as [|x a IH]; [reflexivity|].
+  cbn [app upto_stop]. unfold has_stop. cbn [existsb]. fold (has_stop a).
+  destruct (is_stop (v x)); cbn [orb]; [reflexivity|].
+  rewrite IH. destruct (has_stop a); reflexivity.
+Qed.
+
+Lemma ids_ocons_incl s x : incl (ids (ocons (fst (F_t v s x)) [])) (ids_t x).
+Proof.
+  intros m Hm. pose proof (emb_ids _ _ (F_t_emb x s)) as Hs.
+  pose proof (sublist_in _ _ m Hs Hm) as H. rewrite ids_cons', ids_nil, app_nil_r in H. exact H.
+Qed.
+
+Definition stop_point (idl : list nat) (rl : list nat) (kept_ids : list nat) : Prop :=
+  exists a s b, idl = a ++ s :: b /\ v s = VStop /\
+    upto_stop v rl = before_stop v rl ++ [s] /\ incl kept_ids a.
+
+Definition stop_pt_ok (t : rt) : Prop :=
+  snd (F_t v false t) = true -> stop_point (ids_t t) (reach_t v t) (ids (ocons (fst (F_t v false t)) [])).
+
+Lemma F_f_stop_point_of l : Forall stop_pt_ok l ->
+  snd (F_f v false l) = true -> stop_point (ids l) (reach v l) (ids (fst (F_f v false l))).
+Proof.
+  induction 1 as [|x l Hx _ IH]; [cbn; discriminate|].
+  rewrite F_f_cons. cbn [fst snd]. rewrite ids_ocons, ids_cons', reach_cons.
+  unfold stop_pt_ok in Hx. pose proof (F_t_stop x false) as Es. cbn [orb] in Es.
+  destruct (snd (F_t v false x)) eqn:E1.
+  - intros _. destruct (Hx eq_refl) as [a [s [b [H1 [H2 [H3 H4]]]]]].
+    exists a, s, (b ++ ids l). rewrite F_f_true. cbn [fst]. rewrite ids_nil, app_nil_r.
+    refine (conj _ (conj H2 (conj _ H4))).
+    + rewrite H1, <- app_assoc. reflexivity.
+    + rewrite upto_stop_app, before_stop_app, <- Es. exact H3.
+  - intros E2. destruct (IH E2) as [a [s [b [H1 [H2 [H3 H4]]]]]].
+    exists (ids_t x ++ a), s, b. refine (conj _ (conj H2 (conj _ _))).
+    + rewrite H1, <- app_assoc. reflexivity.
+    + rewrite upto_stop_app, before_stop_app, <- Es, H3, app_assoc. reflexivity.
+    + intros m Hm. apply in_or_app. apply in_app_or in Hm.
+      destruct Hm as [Hm|Hm]; [left; exact (ids_ocons_incl false x m Hm)|right; apply H4, Hm].
+Qed.
+
+Lemma F_t_stop_point : forall t, stop_pt_ok t.
+Proof.
+  induction t as [id i ch IH] using rt_ind'. unfold stop_pt_ok.
+  pose proof (F_f_stop_point_of ch IH) as Hk.
+  rewrite F_t_unfold, reach_t_unfold, ids_t_unfold. cbv zeta. cbn [rid rch].
+  assert (Hsub : forall kids, incl (ids kids) (ids ch) -> forall a s b, ids ch = a ++ s :: b -> incl (ids kids) a ->
+                 incl (ids [T id i kids]) (id :: a)).
+  { intros kids _ a s b _ Hin m Hm. rewrite ids_cons', ids_nil, app_nil_r, ids_t_unfold in Hm. cbn [rid rch] in Hm.
+    destruct Hm as [Hm|Hm]; [left; exact Hm|right; apply Hin, Hm]. }
+  destruct (v id) eqn:Ev; cbn [fst snd ocons opens]; try discriminate.
+  - intros E. destruct (Hk E) as [a [s [b [H1 [H2 [H3 H4]]]]]].
+    exists (id :: a), s, b. refine (conj _ (conj H2 (conj _ _))).
+    + rewrite H1. reflexivity.
+    + cbn [upto_stop before_stop]. rewrite Ev. cbn [is_stop]. rewrite H3. reflexivity.
+    + apply (Hsub _ (fun m Hm => sublist_in _ _ m (emb_ids _ _ (F_f_emb false ch)) Hm) a s b H1 H4).
+  - intros E. destruct (Hk E) as [a [s [b [H1 [H2 [H3 H4]]]]]].
+    exists (id :: a), s, b. refine (conj _ (conj H2 (conj _ _))).
+    + rewrite H1. reflexivity.
+    + cbn [upto_stop before_stop]. rewrite Ev. cbn [is_stop]. rewrite H3. reflexivity.
+    + destruct (is_nil (fst (F_f v false ch))); cbn [ocons]; [intros m []|].
+      apply (Hsub _ (fun m Hm => sublist_in _ _ m (emb_ids _ _ (F_f_emb false ch)) Hm) a s b H1 H4).
+  - intros _. exists [], id, (ids ch). refine (conj eq_refl (conj Ev (conj _ _))).
+    + cbn [upto_stop before_stop]. rewrite Ev. reflexivity.
+    + intros m [].
+Qed.
+
+Theorem stop_drops_the_rest f : has_stop (reach v f) = true ->
+  exists a s b, ids f = a ++ s :: b /\ v s = VStop /\
+    calls v f = visited v f ++ [s] /\ incl (ids (F v f)) a.
+Proof.
+  intros H. apply F_f_stop_point_of.
+  - apply Forall_forall. intros t _. apply F_t_stop_point.
+  - rewrite F_f_stop. exact H.
+Qed.
+
+Theorem stop_keeps_accepted f : NoDup (ids f) ->
+  forall n, In n (visited v f) -> accepts (v n) = true -> In n (ids (F v f)).
+Proof.
+  intros ND n Hv Ha. apply (F_ids_kept f ND).
+  pose proof (visited_incl f n Hv) as Hin. unfold ids in Hin. apply in_map_iff in Hin.
+  destruct Hin as [t [E Ht]]. subst n. exists t. refine (conj Ht (conj Hv (conj Ha _))). left. reflexivity.
+Qed.
+
+Theorem no_stop_no_cut f : has_stop (reach v f) = false -> calls v f = reach v f /\ visited v f = reach v f.
+Proof.
+  intros H. unfold calls, visited. split; [|apply before_stop_nostop, H].
+  revert H. generalize (reach v f). induction l as [|x l IH]; [reflexivity|].
+  unfold has_stop. cbn [existsb upto_stop]. fold (has_stop l).
+  destruct (is_stop (v x)); cbn [orb]; [discriminate|]. intros H. rewrite (IH H). reflexivity.
+Qed.
+
+(* ------------------------------------------------------------------ *)
+(* the calls of the predicate: the reached nodes up to the stopping one *)
+Lemma scan_go after l : forall s,
+  (fix go (l : list rt) (s : bool) {struct l} : list nat :=
+     match l with
+     | [] => []
+     | x :: xs => scan_calls v after s x ++ go xs (after s x)
+     end) l s = scan_calls_f v after s l.
+Proof. induction l as [|x l IH]; intros s; [reflexivity|]. cbn [scan_calls_f]. rewrite IH. reflexivity. Qed.
+
+Lemma scan_calls_unfold after s id i ch :
+  scan_calls v after s (T id i ch) =
+  if s then [] else id :: (if opens (v id) then scan_calls_f v after false ch else []).
+Proof. cbn [scan_calls]. rewrite scan_go. reflexivity. Qed.
+
+Lemma upto_stop_nostop a : has_stop a = false -> upto_stop v a = a.
+Proof.
+  induction a as [|x a IH]; [reflexivity|]. unfold has_stop. cbn [existsb upto_stop]. fold (has_stop a).
+  destruct (is_stop (v x)); cbn [orb]; [discriminate|]. intros H. rewrite (IH H). reflexivity.
+Qed.
+
+Section Scan.
+Variable after : bool -> rt -> bool.
+Hypothesis after_ok : forall s x, after s x = snd (F_t v s x).
+
+Lemma scan_f_of l : Forall (fun t => forall s, scan_calls v after s t = if s then [] else upto_stop v (reach_t v t)) l ->
+  forall s, scan_calls_f v after s l = if s then [] else upto_stop v (reach v l).
+Proof.
+  induction 1 as [|x l Hx _ IH]; intros s; [destruct s; reflexivity|].
+  cbn [scan_calls_f]. rewrite Hx, IH, after_ok, F_t_stop, reach_cons, upto_stop_app.
+  destruct s; [reflexivity|]. cbn [orb].
+  destruct (has_stop (reach_t v x)) eqn:E; [apply app_nil_r|].
+  rewrite (upto_stop_nostop _ E). reflexivity.
+Qed.
+
+Lemma scan_t : forall t s, scan_calls v after s t = if s then [] else upto_stop v (reach_t v t).
+Proof.
+  induction t as [id i ch IH] using rt_ind'. intros s. rewrite scan_calls_unfold, reach_t_unfold.
+  destruct s; [reflexivity|]. rewrite (scan_f_of ch IH). cbn [upto_stop].
+  destruct (v id); reflexivity.
+Qed.
+
+Lemma scan_f f : scan_calls_f v after false f = calls v f.
+Proof. unfold calls. rewrite (scan_f_of f); [reflexivity|]. apply Forall_forall. intros t _. apply scan_t. Qed.
+End Scan.
+
+Lemma af_node_stop t stk nx s : snd (af_node v t (stk, nx, s)) = snd (F_t v s t).
+Proof. destruct (af_node_ok t stk nx s) as [c' [nx' [E _]]]. rewrite E. reflexivity. Qed.
+
+Lemma ip_children_cons s x xs :
+  ip_children v s (x :: xs) =
+  (fst (fst (fst (ip_node v s x))) :: fst (fst (fst (ip_children v (snd (ip_node v s x)) xs))),
+   (if snd (fst (fst (ip_node v s x))) then rid x :: snd (fst (fst (ip_children v (snd (ip_node v s x)) xs)))
+    else snd (fst (fst (ip_children v (snd (ip_node v s x)) xs)))),
+   snd (fst (ip_node v s x)) || snd (fst (ip_children v (snd (ip_node v s x)) xs)),
+   snd (ip_children v (snd (ip_node v s x)) xs)).
+Proof. reflexivity. Qed.
+
+Lemma ip_children_stop_of l : Forall (fun t => forall s, snd (ip_node v s t) = s || has_stop (reach_t v t)) l ->
+  forall s, snd (ip_children v s l) = s || has_stop (reach v l).
+Proof.
+  induction 1 as [|x l Hx _ IH]; intros s; [cbn; rewrite orb_false_r; reflexivity|].
+  rewrite ip_children_cons. cbn [snd]. rewrite IH, Hx, reach_cons, has_stop_app, orb_assoc. reflexivity.
+Qed.
+
+(* (no uniqueness of identities needed for the flag) *)
+Lemma ip_node_stop : forall t s, snd (ip_node v s t) = snd (F_t v s t).
+Proof.
+  intros t s. rewrite F_t_stop. revert s.
+  induction t as [id i ch IH] using rt_ind'. intros s. rewrite ip_node_unfold, reach_t_unfold.
+  destruct s; [reflexivity|]. cbv zeta. unfold ip_visit. cbn [snd fst orb].
+  pose proof (ip_children_stop_of ch IH false) as Hk. cbn [orb] in Hk.
+  unfold has_stop. cbn [existsb]. fold (has_stop (if opens (v id) then reach v ch else [])).
+  destruct (v id); cbn [snd is_stop opens orb]; try reflexivity; exact Hk.
+Qed.
+
+Theorem ip_calls_spec f : ip_calls v f = calls v f.
+Proof. apply scan_f. intros s x. apply ip_node_stop. Qed.
+
+Theorem af_calls_spec f : af_calls v f = calls v f.
+Proof. apply scan_f. intros s x. apply af_node_stop. Qed.
+
+(* Node.filter on a branch: the children of the start node are filtered as a forest *)
+Theorem branch_inplace_is_F n f : NoDup (ids f) -> map (upd_at n (filter_inplace v)) f = map (upd_at n (F v)) f.
+Proof.
+  intros ND. apply map_ext_in. intros t0 Ht0. apply upd_at_ext. intros p Hp _.
+  apply filter_inplace_is_F. apply (NoDup_ids_children f p ND).
+  apply in_flat_map. exists t0. split; assumption.
+Qed.
+
+Theorem branch_inplace_nodes n f t : NoDup (ids f) -> In t (pre_f f) -> rid t = n ->
+  forall m, In m (ids (map (upd_at n (filter_inplace v)) f)) <->
+            (In m (ids f) /\ ~ In m (ids (rch t))) \/ kept v (rch t) m.
+Proof.
+  intros ND Ht Hn m. rewrite (branch_inplace_is_F n f ND), (upd_at_ids n (F v) f t ND Ht Hn m).
+  rewrite (F_ids_kept (rch t) (NoDup_ids_children f t ND Ht) m). reflexivity.
+Qed.
+
+(* Node.filtered / Node.copy(predicate=): the start node on top of the filtered copy of its children *)
+Theorem branch_copy t :
+  same_modulo_ids [T 1 (rinfo t) (fst (add_filtered v (rch t) 2))] [T (rid t) (rinfo t) (dbl v (F v (rch t)))].
+Proof.
+  unfold same_modulo_ids. cbn [map erase]. rewrite (add_filtered_is_dbl_F (rch t) 2). reflexivity.
+Qed.
+
+Theorem calls_spec f : af_calls v f = calls v f /\ ip_calls v f = calls v f.
+Proof. exact (conj (af_calls_spec f) (ip_calls_spec f)). Qed.
+
 End P.
+
+(* ------------------------------------------------------------------ *)
+(* only the answers on the nodes of the forest matter                   *)
+Lemma F_f_ext_of v w l :
+  Forall (fun t => (forall n, In n (ids_t t) -> v n = w n) -> forall s, F_t v s t = F_t w s t) l ->
+  (forall n, In n (ids l) -> v n = w n) -> forall s, F_f v s l = F_f w s l.
+Proof.
+  induction 1 as [|x l Hx _ IH]; intros H s; [reflexivity|].
+  rewrite !F_f_cons. rewrite Hx, IH; [reflexivity| |]; intros n Hn; apply H; rewrite ids_cons'; apply in_or_app; [right|left]; exact Hn.
+Qed.
+
+Lemma F_t_ext v w : forall t, (forall n, In n (ids_t t) -> v n = w n) -> forall s, F_t v s t = F_t w s t.
+Proof.
+  induction t as [id i ch IH] using rt_ind'. intros H s. rewrite !F_t_unfold.
+  rewrite <- (H id) by (rewrite ids_t_unfold; left; reflexivity).
+  rewrite (F_f_ext_of v w ch IH); [reflexivity|].
+  intros n Hn. apply H. rewrite ids_t_unfold. right. exact Hn.
+Qed.
+
+Theorem F_ext v w f : (forall n, In n (ids f) -> v n = w n) -> F v f = F w f.
+Proof.
+  intros H. unfold F. rewrite (F_f_ext_of v w f); [reflexivity| |exact H].
+  apply Forall_forall. intros t _. apply F_t_ext.
+Qed.
+
+Lemma dbl_f_ext_of v w l :
+  Forall (fun t => (forall n, In n (ids_t t) -> v n = w n) -> dbl_t v t = dbl_t w t) l ->
+  (forall n, In n (ids l) -> v n = w n) -> map (dbl_t v) l = map (dbl_t w) l.
+Proof.
+  induction 1 as [|x l Hx _ IH]; intros H; [reflexivity|]. cbn [map].
+  rewrite Hx, IH; [reflexivity| |]; intros n Hn; apply H; rewrite ids_cons'; apply in_or_app; [right|left]; exact Hn.
+Qed.
+
+Lemma dbl_t_ext v w : forall t, (forall n, In n (ids_t t) -> v n = w n) -> dbl_t v t = dbl_t w t.
+Proof.
+  induction t as [id i ch IH] using rt_ind'. intros H. cbn [dbl_t].
+  rewrite <- (H id) by (rewrite ids_t_unfold; left; reflexivity).
+  rewrite (dbl_f_ext_of v w ch IH); [reflexivity|].
+  intros n Hn. apply H. rewrite ids_t_unfold. right. exact Hn.
+Qed.
+
+Lemma dbl_ext v w f : (forall n, In n (ids f) -> v n = w n) -> dbl v f = dbl w f.
+Proof.
+  intros H. apply dbl_f_ext_of; [|exact H]. apply Forall_forall. intros t _. apply dbl_t_ext.
+Qed.
+
+(* the property for a predicate given by what it *does* (returns or raises):
+   the in-place form sees it through Node.filter's chain of tests, the copying
+   form through _add_filtered's chain; both give the same sub-forest (modulo
+   the D24 leaves), and two predicates that differ only in returning or
+   raising a signal cannot be told apart *)
+Theorem inplace_vs_copy_raw (p : nat -> raw) f : NoDup (ids f) ->
+  same_modulo_ids (filtered (fun n => classify_cp (call_predicate (p n))) f)
+                  (dbl (fun n => classify_cp (call_predicate (p n))) (filter_inplace (fun n => classify_ip (call_predicate (p n))) f)).
+Proof.
+  intros ND. rewrite (filter_inplace_is_F _ f ND).
+  rewrite (F_ext (fun n => classify_ip (call_predicate (p n))) (fun n => classify_cp (call_predicate (p n))) f).
+  - apply filtered_is_dbl_F.
+  - intros n _. apply classify_same.
+Qed.
+
+Theorem raw_predicates_equal (p q : nat -> raw) f : NoDup (ids f) ->
+  (forall n, In n (ids f) -> call_predicate (p n) = call_predicate (q n)) ->
+  filter_inplace (fun n => classify_ip (call_predicate (p n))) f = filter_inplace (fun n => classify_ip (call_predicate (q n))) f /\
+  same_modulo_ids (filtered (fun n => classify_cp (call_predicate (p n))) f) (filtered (fun n => classify_cp (call_predicate (q n))) f).
+Proof.
+  intros ND H. split.
+  - rewrite !(filter_inplace_is_F _ f ND). apply F_ext. intros n Hn. rewrite (H n Hn). reflexivity.
+  - unfold same_modulo_ids. rewrite (filtered_is_dbl_F _ f), (filtered_is_dbl_F (fun n => classify_cp (call_predicate (q n))) f).
+    assert (E : forall n, In n (ids f) -> classify_cp (call_predicate (p n)) = classify_cp (call_predicate (q n)))
+      by (intros n Hn; rewrite (H n Hn); reflexivity).
+    rewrite (F_ext _ _ f E). rewrite (dbl_ext _ _ _ (fun n Hn => E n (sublist_in _ _ n (F_order _ f) Hn))). reflexivity.
+Qed.
 
 (* ------------------------------------------------------------------ *)
 (* a checker for NoDup, for examples                                    *)
